@@ -123,6 +123,9 @@ enum RoleMask {
     RiskForceComplete,
     /// the group admin's own per-bank configuration instructions (only the frozen rule applies)
     GroupAdmin,
+    /// an instruction anyone may send that has no business with this bank (e.g. the staked-settings
+    /// propagation aimed at a bank that is not a staked-collateral bank): may change nothing
+    Nobody,
 }
 
 fn allowed_regions(r: RoleMask) -> Vec<Region> {
@@ -132,6 +135,7 @@ fn allowed_regions(r: RoleMask) -> Vec<Region> {
         RoleMask::Emode => vec![Region::Emode],
         RoleMask::Emissions => vec![Region::EmissionsRate, Region::EmissionsRemaining, Region::EmissionsMint, Region::Flags],
         RoleMask::Metadata => vec![],
+        RoleMask::Nobody => vec![],
         RoleMask::RiskForceComplete => vec![Region::Flags],
         RoleMask::GroupAdmin => vec![Region::Interest, Region::DepositLimit, Region::BorrowLimit, Region::InitLimit, Region::Emode, Region::Flags, Region::Weights, Region::Oracle, Region::RiskTier, Region::OpState, Region::Other],
     }
@@ -260,6 +264,12 @@ fn cases(e: &Env, bank_idx: usize, s: &Store, tier: Tier) -> Vec<Case> {
     ];
     for (n, o) in opts {
         v.push(Case { name: format!("configure_bank:{n}"), role: RoleMask::GroupAdmin, ixs: vec![ix::configure_bank(g, ga, b, o)], signers: vec![ga], may_touch: vec![] });
+    }
+    // --- anyone: the permissionless staked-settings propagation aimed at this (ordinary) bank
+    for (n, signer) in [("stranger", crate::act::stranger()), ("group_admin", ga), ("limit_admin", w.roles.limit)] {
+        for (rn, rem) in [("no_oracle_accounts", vec![]), ("with_oracle_account", w.banks[bank_idx].oracle.map(|o| vec![ix::ro(o)]).unwrap_or_default())] {
+            v.push(Case { name: format!("propagate_staked_settings_on_ordinary_bank:{n}:{rn}"), role: RoleMask::Nobody, ixs: vec![ix::propagate_staked_settings(g, b, rem)], signers: vec![signer], may_touch: vec![] });
+        }
     }
     v.push(Case { name: "configure_bank_oracle".into(), role: RoleMask::GroupAdmin, ixs: vec![ix::configure_bank_oracle(g, ga, b, 3, o_other, vec![ix::ro(o_other)])], signers: vec![ga], may_touch: vec![] });
     v.push(Case { name: "set_fixed_oracle_price".into(), role: RoleMask::GroupAdmin, ixs: vec![ix::set_fixed_oracle_price(g, ga, b, I80F48::from_num(2).into())], signers: vec![ga], may_touch: vec![] });
